@@ -404,6 +404,75 @@ func scenario(t *testing.T, idx int64, c ctor, r *rand.Rand) {
 					}
 				}
 				holder = g.l
+			case x == 9 && holder != nil && len(ws) < 12 && len(waiting) < maxW:
+				// a caller arrives and, while it is on its way into the backlog (verif point before the push), the holder
+				// completes in another goroutine.  The arriving caller counts as queued: the unit goes to the caller the
+				// order designates among the queued ones and the newcomer - never to nobody.
+				time.Sleep(time.Duration(1+r.IntN(5)) * time.Millisecond)
+				expire()
+				var fired atomic.Bool
+				h := holder
+				holder = nil
+				yields := []int{200, 2000}[r.IntN(2)]
+				limiter.SetVerifHook(func(name string) {
+					if name == "queue.before_push" && fired.CompareAndSwap(false, true) {
+						var done atomic.Bool
+						go func() { h.OnSuccess(); done.Store(true) }()
+						for i := 0; i < yields && !done.Load(); i++ {
+							runtime.Gosched()
+						}
+					}
+				})
+				ctx, cancel := context.WithCancel(context.Background())
+				w := &waiter{id: len(ws), cancel: cancel, arrived: now()}
+				ws = append(ws, w)
+				waiting = append(waiting, w)
+				go func() {
+					w.l, w.ok = lim.Acquire(ctx)
+					w.done.Store(true)
+				}()
+				synctest.Wait()
+				limiter.SetVerifHook(nil)
+				if !fired.Load() {
+					h.OnSuccess()
+					synctest.Wait()
+				}
+				rt.Count("releases_landing_on_an_arriving_caller", 1)
+				var got []*waiter
+				for _, x := range ws {
+					if x.done.Load() && !x.seen {
+						x.seen = true
+						got = append(got, x)
+					}
+				}
+				want := waiting[0]
+				if c.Order == "lifo" {
+					want = waiting[len(waiting)-1]
+				}
+				ids := []int{}
+				for _, x := range waiting {
+					ids = append(ids, x.id)
+				}
+				trace = append(trace, fmt.Sprintf("t=%v waiter %d arrives while the holder completes (queued incl. the newcomer, oldest first: %v)", now(), w.id, ids))
+				if len(got) != 1 || !got[0].ok || got[0].l == nil {
+					fail("release-landing-on-an-arriving-caller-did-not-grant-exactly-one-waiter", rt.J{"returned": len(got), "waiting_in_arrival_order": ids})
+					bad = true
+					continue
+				}
+				if got[0] != want {
+					fail("granted-out-of-configured-order", rt.J{"granted": got[0].id, "expected": want.id, "waiting_in_arrival_order": ids, "what": "release landing on an arriving caller"})
+					bad = true
+					continue
+				}
+				grants++
+				rt.Count("grants_checked", 1)
+				for k, x := range waiting {
+					if x == want {
+						waiting = append(waiting[:k], waiting[k+1:]...)
+						break
+					}
+				}
+				holder = got[0].l
 			default: // release
 				if holder == nil {
 					continue
